@@ -23,7 +23,7 @@ def mk(ctx, _ty, _hint='', **fields):
         # can be in next to any value of the others.  A new collection or counter usually mirrors other fields - a default
         # for it would describe an unreachable state - so that stays exit 2.
         missing = [f for f in order if f not in fields]
-        flaglike = all(re.match(r'^(Option\s*<|bool\b)', ctx.src.field_type(name, f, hint) or '') for f in missing)
+        flaglike = all(re.match(r'^(Option\s*<|bool\b|AtomicBool\b|Cell\s*<\s*bool)', ctx.src.field_type(name, f, hint) or '') for f in missing)
         init = _constructed(ctx, name) if flaglike else None
         if init is not None:
             fields = dict(fields)
